@@ -19,6 +19,7 @@ DEST_STATES = {
     "file_ro_same": ("d", [dict(t="f", p="d", c=b"hello\n", m=0o444)]),
     "file_0000": ("d", [dict(t="f", p="d", c=b"other", m=0o000)]),
     "file_suid": ("d", [dict(t="f", p="d", c=b"hello\n", m=0o4755)]),
+    "file_same_640": ("d", [dict(t="f", p="d", c=b"hello\n", m=0o640)]),
     "dir": ("d", [dict(t="d", p="d", m=0o755)]),
     "dir_full": ("d", [dict(t="d", p="d", m=0o750), dict(t="f", p="d/inner", c=b"x", m=0o644)]),
     "link_file": ("d", [dict(t="f", p="tf", c=b"other", m=0o640), dict(t="l", p="d", to="tf")]),
